@@ -139,15 +139,26 @@ pub fn append_rule(rule: Arc<Rule>) -> bool {
         .entry(rule.resource.clone())
         .or_default()
         .insert(Arc::clone(&rule));
-    let mut global_breaker_map = BREAKER_MAP.write().unwrap();
-    let cbs_of_res = global_breaker_map.entry(rule.resource.clone()).or_default();
     // an equal rule (whatever its id) is already enforced, nothing to build
-    if !cbs_of_res.iter().any(|cb| cb.bound_rule() == &rule) {
+    let already_enforced = BREAKER_MAP
+        .read()
+        .unwrap()
+        .get(&rule.resource)
+        .map_or(false, |cbs| cbs.iter().any(|cb| cb.bound_rule() == &rule));
+    if !already_enforced {
         let mut rule_set = HashSet::with_capacity(1);
         rule_set.insert(Arc::clone(&rule));
-        // the breakers already enforced stay in place, so none of them hands over its statistic
+        // The breaker generator runs while `BREAKER_MAP` is not locked (a custom generator may call
+        // read-only functions of this manager); `CURRENT_RULES`, held throughout, serialises the updates.
+        // The breakers already enforced stay in place, so none of them hands over its statistic.
         let mut new_cbs = build_resource_circuit_breaker(&rule.resource, &rule_set, &mut Vec::new());
         if !new_cbs.is_empty() {
+            BREAKER_MAP
+                .write()
+                .unwrap()
+                .entry(rule.resource.clone())
+                .or_default()
+                .append(&mut new_cbs);
             BREAKER_RULES
                 .write()
                 .unwrap()
@@ -155,10 +166,6 @@ pub fn append_rule(rule: Arc<Rule>) -> bool {
                 .or_default()
                 .insert(Arc::clone(&rule));
         }
-        cbs_of_res.append(&mut new_cbs);
-    }
-    if cbs_of_res.is_empty() {
-        global_breaker_map.remove(&rule.resource);
     }
     true
 }
@@ -209,13 +216,15 @@ pub fn load_rules(rules: Vec<Arc<Rule>>) -> bool {
     }
 
     let start = utils::curr_time_nanos();
-    let mut global_breaker_map = BREAKER_MAP.write().unwrap();
+    // The breaker generators run on a copy of the current lists while `BREAKER_MAP` is not locked
+    // (a custom generator may call read-only functions of this manager, and entries keep being checked
+    // against the current breakers); `CURRENT_RULES`, held throughout, serialises the updates.
+    let current_breaker_map = BREAKER_MAP.read().unwrap().clone();
     let mut valid_breaker_map = HashMap::with_capacity(valid_rules_map.len());
 
     // build global_breaker_map according to valid rules
     for (res, rules) in valid_rules_map.iter() {
-        // looked up in a copy of the list: the breakers themselves stay in the map until it is replaced
-        let mut old_cbs_of_res = global_breaker_map.get(res).cloned().unwrap_or_default();
+        let mut old_cbs_of_res = current_breaker_map.get(res).cloned().unwrap_or_default();
         let new_cbs_of_res = build_resource_circuit_breaker(res, rules, &mut old_cbs_of_res);
         if !new_cbs_of_res.is_empty() {
             valid_breaker_map.insert(res.clone(), new_cbs_of_res);
@@ -232,11 +241,11 @@ pub fn load_rules(rules: Vec<Arc<Rule>>) -> bool {
     }
 
     *BREAKER_RULES.write().unwrap() = valid_rules_map;
-    let old_breaker_map = std::mem::replace(&mut *global_breaker_map, valid_breaker_map);
+    let old_breaker_map = std::mem::replace(&mut *BREAKER_MAP.write().unwrap(), valid_breaker_map);
     *global_rule_map = rule_map;
     drop(global_rule_map);
-    drop(global_breaker_map);
     // the replaced breakers are dropped (announcing it to the listeners) after the locks are released
+    drop(current_breaker_map);
     drop(old_breaker_map);
     logging::debug!(
         "[CircuitBreakerTrait load_rules] Time statistic(ns) for updating flow rule, time cost {}",
@@ -259,11 +268,10 @@ pub fn load_rules_of_resource(res: &String, rules: Vec<Arc<Rule>>) -> Result<boo
     // listeners) after the locks are released
     let mut _old_res_cbs: Option<Vec<Arc<dyn CircuitBreakerTrait>>> = None;
     let mut global_rule_map = CURRENT_RULES.lock().unwrap();
-    let mut global_breaker_map = BREAKER_MAP.write().unwrap();
     // clear resource rules
     if rules.is_empty() {
         global_rule_map.remove(res);
-        _old_res_cbs = global_breaker_map.remove(res);
+        _old_res_cbs = BREAKER_MAP.write().unwrap().remove(res);
         BREAKER_RULES.write().unwrap().remove(res);
         logging::info!(
             "[CircuitBreakerTrait] clear resource level rules, resource {}",
@@ -290,18 +298,27 @@ pub fn load_rules_of_resource(res: &String, rules: Vec<Arc<Rule>>) -> Result<boo
     }
     // the `res` related rules changes, have to update
     let start = utils::curr_time_nanos();
-    let old_res_tcs = global_breaker_map.remove(res).unwrap_or_default();
+    // The breaker generators run on a copy of the current list while `BREAKER_MAP` is not locked
+    // (see `load_rules`); `CURRENT_RULES`, held throughout, serialises the updates.
+    let mut old_res_tcs = BREAKER_MAP
+        .read()
+        .unwrap()
+        .get(res)
+        .cloned()
+        .unwrap_or_default();
 
     let valid_res_rules_string = format!("{:?}", &valid_res_rules);
-    // looked up in a copy of the list: the breakers themselves are kept until the locks are released
-    let new_res_tcs =
-        build_resource_circuit_breaker(res, &valid_res_rules, &mut old_res_tcs.clone());
-    _old_res_cbs = Some(old_res_tcs);
+    let new_res_tcs = build_resource_circuit_breaker(res, &valid_res_rules, &mut old_res_tcs);
+    drop(old_res_tcs);
 
     if new_res_tcs.is_empty() {
+        _old_res_cbs = BREAKER_MAP.write().unwrap().remove(res);
         BREAKER_RULES.write().unwrap().remove(res);
     } else {
-        global_breaker_map.insert(res.clone(), new_res_tcs);
+        _old_res_cbs = BREAKER_MAP
+            .write()
+            .unwrap()
+            .insert(res.clone(), new_res_tcs);
         BREAKER_RULES
             .write()
             .unwrap()
